@@ -400,6 +400,22 @@ func (fr *Frame) enterLoop(l *loop, in *State, heads map[*ssa.BasicBlock]*loopHe
 		st.cells[c] = nv
 		fr.assumeIterInvariant(st, r, nv)
 	}
+	// ghost call logs written inside the loop are unknown at its head
+	if fr.precreateGhosts(l, st) {
+		var names []string
+		for n := range fx.ghost {
+			names = append(names, n)
+		}
+		sort.Strings(names)
+		for _, n := range names {
+			c := fx.ghost[n]
+			nv := freshVal(fx.decls, c.sh, "ghost")
+			st.cells[c] = nv
+			if c.sh.kind == KInt {
+				fx.assume(st.guard, le("0", nv.t()))
+			}
+		}
+	}
 	for _, hn := range sortedKeys(mods.heaps) {
 		so := mods.heaps[hn]
 		fx.heapSorts[hn] = so
@@ -530,6 +546,44 @@ func (fr *Frame) loopMods(l *loop) loopModSet {
 }
 
 func (fr *Frame) loopStoresSame(l *loop, a *ssa.Alloc) bool { return false }
+
+// precreateGhosts makes sure the ghost log cells written by calls inside the
+// loop exist before the loop is cut; it reports whether there are any.
+func (fr *Frame) precreateGhosts(l *loop, st *State) bool {
+	fx := fr.fx
+	intSh := shapeOf(types.Typ[types.Int])
+	any := false
+	for b := range l.body {
+		for _, in := range b.Instrs {
+			c, ok := in.(*ssa.Call)
+			if !ok {
+				continue
+			}
+			cc := &c.Call
+			if cc.IsInvoke() {
+				any = true
+				continue
+			}
+			if _, isB := cc.Value.(*ssa.Builtin); isB || cc.StaticCallee() != nil {
+				continue
+			}
+			any = true
+			sig := cc.Signature()
+			fx.ghostCell(st, "cbcalls", intSh, mkInt(intSh, "0"))
+			for i := 0; i < sig.Params().Len(); i++ {
+				ash := &Shape{kind: KArr, elem: shapeOf(sig.Params().At(i).Type()), n: -1}
+				ash.key = "[cb]" + ash.elem.key
+				fx.ghostCell(st, fmt.Sprintf("cbarg:%d", i), ash, freshVal(fx.decls, ash, "cbargs0"))
+			}
+			if sig.Results().Len() == 1 {
+				ash := &Shape{kind: KArr, elem: shapeOf(sig.Results().At(0).Type()), n: -1}
+				ash.key = "[cb]" + ash.elem.key
+				fx.ghostCell(st, "cbres", ash, freshVal(fx.decls, ash, "cbres0"))
+			}
+		}
+	}
+	return any
+}
 
 func (fr *Frame) assumeIterInvariant(st *State, r *ssa.Range, pos Val) {
 	x := fr.regs[r.X]
@@ -1403,6 +1457,10 @@ func goDiv(x, y T, signed bool) T {
 
 func goRem(x, y T, signed bool) T {
 	if !signed {
+		if _, lit := litBig(y); !lit {
+			// variable divisor: spell out the two cheapest cases
+			return ite(lt(x, y), x, ite(lt(x, app("*", "2", y)), sub(x, y), app("mod", x, y)))
+		}
 		return app("mod", x, y)
 	}
 	m := app("mod", app("abs", x), app("abs", y))
